@@ -122,3 +122,52 @@ from contracts.C02_znative import decisions as _c02_decisions  # noqa: E402
 
 native_check("C03", "names-bound-only-in-inner-scopes-do-not-stop-the-wrap", "bounded", _c02_decisions,
              doc="C02's probe programs: a name bound only in a function / class / as a parameter leaves a later module-level line a command")
+
+
+def long_chains(tier, seed):
+    """many command segments in one input: one-line chains of k commands and scripts of n two-command chain lines - the bare form compiles to the
+    same program as the hand-wrapped form (the wrap-and-reparse budget must grow with the number of segments)"""
+    import builtins
+    from xonsh.execer import Execer
+    from xonsh.built_ins import XSH
+
+    ex = Execer()
+    XSH.load(execer=ex, inherit_env=True)
+    XSH.env["XONSH_INTERACTIVE"] = False
+    ctx = set(dir(builtins))
+    failures, n, samples = [], 0, []
+    ks = (2, 6, 11, 12, 13, 20) + ((40,) if tier != "quick" else ())
+    ns = (12, 24) + ((48,) if tier != "quick" else ())
+    cases = []
+    for op in ("&&", "||", "and", "or"):
+        for k in ks:
+            cases.append(("one line, %d commands joined by %s" % (k, op), (" %s " % op).join("echo a%d b" % i for i in range(k)),
+                          (" %s " % op).join("![echo a%d b]" % i for i in range(k))))
+    for nl in ns:
+        for pad in ("", "    "):
+            pre = ["if True:"] if pad else []
+            cases.append(("%d lines of `cmd && cmd`%s" % (nl, " inside if" if pad else ""), "\n".join(pre + [pad + "echo a%d b && echo c d" % i for i in range(nl)]),
+                          "\n".join(pre + [pad + "![echo a%d b] && ![echo c d]" % i for i in range(nl)])))
+    cases.append(("12 commands separated by ;", "; ".join("echo a%d b" % i for i in range(12)), "; ".join("![echo a%d b]" % i for i in range(12))))
+    for name, bare, expl in cases:
+        n += 1
+        obs = None
+        try:
+            tb = ex.parse(bare + "\n", ctx=set(ctx), mode="exec", filename="<bare>")
+            te = ex.parse(expl + "\n", ctx=set(ctx), mode="exec", filename="<explicit>")
+            if _strip(tb) != _strip(te):
+                obs = "the bare form compiles to a different program than the hand-wrapped form"
+        except SyntaxError as e:
+            obs = "SyntaxError for the bare form: %s" % str(e).split("\n")[0]
+        except Exception as e:  # noqa
+            obs = "%s: %s" % (type(e).__name__, e)
+        if obs and len(failures) < 5:
+            failures.append({"clause": "a bare command line means exactly its explicit ![...] form", "inputs": {"case": name}, "observed": obs})
+        elif not obs and len(samples) < 3:
+            samples.append({"case": name})
+    return {"kind": "bounded", "evaluations": n, "distinct_nontrivial": n, "failures": failures, "exhaustive": False,
+            "bound": "one-line chains of up to %d commands x 4 operators; scripts of up to %d chain lines" % (ks[-1], ns[-1]),
+            "domain": "real Execer.parse, bare vs hand-wrapped source", "samples": samples}
+
+
+native_check("C03", "many-segments-in-one-input", "bounded", long_chains, doc="long chains and many chain lines through the real execer")
